@@ -139,7 +139,11 @@ void erode(numpy::aligned_array<T> res, const numpy::aligned_array<T> array, con
     filter_iterator<T> filter(array.raw_array(), Bc.raw_array(), ExtendNearest, is_bool(T()));
     const numpy::index_type N2 = filter.size();
     T* rpos = res.data();
-    if (!N2) return;
+    if (!N2) {
+        // empty structuring element: the minimum over nothing (do not return uninitialised memory)
+        std::fill(rpos, rpos + N, std::numeric_limits<T>::max());
+        return;
+    }
 
     for (numpy::index_type i = 0; i != N; ++i, ++rpos, filter.iterate_both(iter)) {
         T value = std::numeric_limits<T>::max();
